@@ -70,6 +70,8 @@ class BleAccessory:
         self.resumable = {}  # session id -> shared secret
         self.pairings_reply = None  # override for pairings M2 TLV items
         self.verify_reply_edit = None
+        self.setup = hap.SetupService(self.ident, "111-22-333", seed)
+        self.setup.controllers = self.controllers
         self.reset_link()
 
     # ---- link / session state (reset on every GATT connection)
@@ -81,6 +83,7 @@ class BleAccessory:
         self.errors = []
         self.frames_out = []  # every genuine fragment emitted in this link: (seq, bytes)
         self.m3_ok = None
+        self.setup.reset()
 
     def pairing_data(self):
         return {
@@ -163,6 +166,8 @@ class BleAccessory:
             value = d.get(1, b"")
             if ch is not None and ch.type == CH_PAIR_VERIFY:
                 return 0, tlv8.encode([(1, self.pair_verify(value))])
+            if ch is not None and ch.type == CH_PAIR_SETUP:
+                return 0, tlv8.encode([(1, tlv8.encode(self.setup.handle(value)))])
             if ch is not None and ch.type == CH_PAIRINGS:
                 return 0, tlv8.encode([(1, self.pairings(value))])
             if ch is None:
